@@ -362,8 +362,78 @@ def naming_and_frame(b):
         bad = [w for w in log if any(o in ("old_world.config", "new_config") for o in w["origins"])]
         ground(b, f"{fn.key}::frame[{label}]", fn.key, "frame: no dictionary write of build_from_world reaches old_world.config or new_config (writes go to fresh copies only)", not bad, detail=str(bad)[:300])
     helper_frames(b)
+    merge_semantics(b)
     b.replayer(f"{fn.key}::terminates*", _replay_naming)
     b.replayer("*", replay_generic)
+
+
+def merge_semantics(b):
+    """nested_merge on concrete key structures with symbolic leaves (the real source, executed): the merged configuration keeps the KEYS OF THE OLD
+    dictionary IN THEIR ORDER at every level (layers are stacked bottom-up in the order of config['layers'], so the order is part of the result), appends
+    new-only keys after them, takes new values over old ones, merges sub-dictionaries recursively, and leaves both inputs as they were."""
+    import copy as _copy
+    fn = Fn(FD, "nested_merge")
+    b.add_fn(fn)
+    L = lambda nm: {"radius": R(nm + "_radius"), "density": R(nm + "_density"), "type": nm + "_type"}
+    shapes = {
+        "subset_not_prefix": (lambda: {"name": "w", "radius": R("Rw"), "layers": {"Core": L("core"), "Mantle": L("mantle"), "Crust": L("crust")}, "tides": {"model": "m0", "l": R("l0")}},
+                              lambda: {"layers": {"Mantle": {"density": R("mantle_density_new")}}, "mass": R("M_new")}),
+        "reordered_layers": (lambda: {"name": "w", "layers": {"Core": L("core"), "Mantle": L("mantle"), "Crust": L("crust")}},
+                             lambda: {"layers": {"Crust": {"radius": R("crust_radius_new")}, "Core": {"density": R("core_density_new")}}, "name": "w2"}),
+        "new_layer_appended": (lambda: {"layers": {"Core": L("core"), "Mantle": L("mantle")}, "radius": R("Rw")},
+                               lambda: {"radius": R("Rw_new"), "layers": {"Ocean": L("ocean"), "Mantle": {"type": "mantle_type_new"}}}),
+        "flat_override": (lambda: {"name": "w", "radius": R("Rw"), "mass": R("Mw")}, lambda: {"mass": R("M_new"), "spin": R("spin_new")}),
+    }
+
+    def expected(old, new):
+        out = {}
+        for k_ in old:
+            if k_ in new:
+                out[k_] = expected(old[k_], new[k_]) if (isinstance(new[k_], dict) and isinstance(old[k_], dict)) else new[k_]
+            else:
+                out[k_] = old[k_]
+        for k_ in new:
+            if k_ not in old:
+                out[k_] = new[k_]
+        return out
+
+    def same(x, y):
+        if isinstance(x, dict) or isinstance(y, dict):
+            return isinstance(x, dict) and isinstance(y, dict) and list(x.keys()) == list(y.keys()) and all(same(x[k_], y[k_]) for k_ in x)
+        try:
+            return x == y or sp.simplify(sp.sympify(x) - sp.sympify(y)) == 0
+        except Exception:
+            return False
+
+    def order_of(x):
+        return {k_: order_of(v_) for k_, v_ in x.items()} if isinstance(x, dict) else None
+    for label, (mk_old, mk_new) in shapes.items():
+        old, new = mk_old(), mk_new()
+        old0, new0 = _copy.deepcopy(old), _copy.deepcopy(new)
+        ex = Exec(fn, globals_env=dict(copy=Namespace("copy", {"deepcopy": (lambda ex_, node_, x_: _copy.deepcopy(x_))})), opts=dict(definedness=False, max_recursion=6))
+        try:
+            paths = ex.run(dict(old_dict=old, new_dict=new, make_copies=True))
+        except SymExError as e:
+            b.subset_exits.append(f"{fn.key} [{label}]: {e}")
+            continue
+        if len(paths) != 1 or paths[0].outcome != "return":
+            b.subset_exits.append(f"{fn.key} [{label}]: {[p_.outcome for p_ in paths]}")
+            continue
+        got, want = paths[0].value, expected(old0, new0)
+        ok_vals = isinstance(got, dict) and same({k_: got[k_] for k_ in sorted(got)}, {k_: want[k_] for k_ in sorted(want)}) if isinstance(got, dict) else False
+
+        def unordered_same(x, y):
+            if isinstance(x, dict) or isinstance(y, dict):
+                return isinstance(x, dict) and isinstance(y, dict) and set(x) == set(y) and all(unordered_same(x[k_], y[k_]) for k_ in x)
+            return same(x, y)
+        ground(b, f"{fn.key}::ensures:merged_values[{label}]", fn.key, "ensures every key of either input is present; new values win; sub-dictionaries are merged recursively", unordered_same(got, want),
+               detail=str(got)[:300])
+        ok_order = isinstance(got, dict) and order_of(got) == order_of(want) and list(order_of(got)) == list(order_of(want)) and same(got, want)
+        ground(b, f"{fn.key}::ensures:key_order[{label}]", fn.key,
+               "ensures at every level: the old dictionary's keys come first and in their order (layer order = stacking order), new-only keys follow in the new dictionary's order",
+               ok_order, detail=f"got {list(got.get('layers', got)) if isinstance(got, dict) else got}; want {list(want.get('layers', want))}",
+               refuted_model=None if ok_order else dict(old_keys=str(order_of(old0))[:200], new_keys=str(order_of(new0))[:200], merged_keys=str(order_of(got))[:200] if isinstance(got, dict) else str(got)))
+        ground(b, f"{fn.key}::frame:inputs_unchanged[{label}]", fn.key, "frame: both input dictionaries are as they were (keys, order, values) after the merge", same(old, old0) and same(new, new0))
 
 
 def helper_frames(b):
@@ -467,6 +537,11 @@ def check(w, tag):
     if abs(prev - w.radius) > 1e-9 * w.radius: bad.append((tag, "top radius"))
     if abs(vol - w.volume) > 1e-9 * w.volume: bad.append((tag, "volume sum"))
     if abs(w.gravity_outer - 6.6743e-11 * w.mass / w.radius**2) > 1e-6 * w.gravity_outer: bad.append((tag, "gravity"))
+    # a world whose shipped configuration gives no total mass derives it from its layers - also after any scaling / derivation
+    root = tag.split("*")[0]
+    if allcfg.get(root, {}).get("mass", None) is None:
+        lm = float(sum(L.mass for L in w.layers))
+        if abs(w.mass - lm) > 1e-9 * max(abs(lm), 1.0): bad.append((tag, "world mass != sum of layer masses (no mass in the shipped configuration)", float(w.mass), lm))
 for nm in names:
     try:
         w = build_world(nm)
@@ -480,6 +555,9 @@ for nm in names:
             w2 = scale_from_world(w, radius_scale=s)
             check(w2, nm + "*%g" % s)
             if abs(w2.radius - s * w.radius) > 1e-9 * w2.radius: bad.append((nm, "scale"))
+            w3 = scale_from_world(w2, radius_scale=1.0 / s)
+            check(w3, nm + "*%g*%g" % (s, 1.0 / s))
+            if abs(w3.mass - w.mass) > 1e-9 * w.mass: bad.append((nm + "*%g*%g" % (s, 1.0 / s), "mass after scaling there and back", float(w3.mass), float(w.mass)))
         except Exception as ex:
             bad.append((nm, "scale raised", repr(ex)[:80]))
 chains = 0
@@ -550,8 +628,29 @@ result = dict(worlds=names, bad=[list(map(str, x)) for x in bad[:8]])
 '''
 
 
+_MERGE_REPLAY = r'''
+from TidalPy.utilities.dictionary_utils import nested_merge
+L = lambda nm: {"radius": 1.0, "density": 2.0, "type": nm}
+old = {"name": "w", "radius": 5.0, "layers": {"Core": L("core"), "Mantle": L("mantle"), "Crust": L("crust")}, "tides": {"model": "m0"}}
+cases = [({"layers": {"Mantle": {"density": 9.0}}, "mass": 3.0}, ["name", "radius", "layers", "tides", "mass"], ["Core", "Mantle", "Crust"]),
+         ({"layers": {"Crust": {"radius": 7.0}, "Core": {"density": 8.0}}, "name": "w2"}, ["name", "radius", "layers", "tides"], ["Core", "Mantle", "Crust"]),
+         ({"radius": 6.0, "layers": {"Ocean": L("ocean"), "Mantle": {"type": "x"}}}, ["name", "radius", "layers", "tides"], ["Core", "Mantle", "Crust", "Ocean"])]
+bad = []
+for new, top, layers in cases:
+    m = nested_merge(old, new)
+    if list(m) != top or list(m["layers"]) != layers:
+        bad.append([list(m), list(m["layers"]), top, layers])
+result = bad
+'''
+
+
 def replay_generic(ob, res):
     from tpv import native
+    if "::bounded:" in ob.oid:
+        return dict(replayed=True, confirmed=True, what="the failing case was produced by the native run itself", model=res.get("model"))
+    if "nested_merge::" in ob.oid:
+        out = native.run(dict(code=_MERGE_REPLAY), timeout=300)
+        return dict(replayed=True, native=out, confirmed=bool(out.get("result")) or "exception" in out, what="key order of nested_merge(old, new) on three layered configurations")
     out = native.run(dict(code=_REPLAY_GENERIC), timeout=900)
     rec = dict(replayed=True, native=out, what="shipped 3-layer and 2-layer worlds: geometry / enclosed-mass invariants, chain scale x2 then x0.5, build_from_world of a scaled world, deep comparison of the source config")
     if "result" not in out:
